@@ -102,10 +102,23 @@ func runC04(r *Run) {
 		// the adjusted length = in:Length - sizeReduced(phi)
 		adj := le.Eval(adjStore.Val)
 		var red *ssa.Phi
+		accFn := check // the function that holds the accumulation loop (Check itself or a one-level helper)
 		_ = adj
 		if bo, ok := stripConvs(adjStore.Val).(*ssa.BinOp); ok && bo.Op == token.SUB {
-			if ph, ok := stripConvs(bo.Y).(*ssa.Phi); ok && isIntType(ph.Type()) {
+			y := stripConvs(bo.Y)
+			if ph, ok := y.(*ssa.Phi); ok && isIntType(ph.Type()) {
 				red = ph
+			} else if c, ok := y.(*ssa.Call); ok {
+				// helper(msg.Attributes) returning the accumulated size
+				if sc := c.Call.StaticCallee(); sc != nil && p.isLibFn(sc) && len(c.Call.Args) == 1 && valueIsLoadOfField(c.Call.Args[0], attrsF) {
+					for _, ret := range returnsOf(sc) {
+						if ph, ok := stripConvs(ret.Results[0]).(*ssa.Phi); ok && isIntType(ph.Type()) {
+							red = ph
+							accFn = sc
+							r.Analysed(sc)
+						}
+					}
+				}
 			}
 		}
 		if red == nil {
@@ -116,7 +129,7 @@ func runC04(r *Run) {
 			okAdj := false
 			if bo, ok := final.(*ssa.BinOp); ok && bo.Op == token.SUB && fieldLoadIs(bo.X, lenF) {
 				acc := stripConvs(bo.Y)
-				if reachesPhi(acc, red, 0) {
+				if reachesPhi(acc, red, 0) || accFn != check {
 					okAdj = true
 				}
 			}
@@ -139,10 +152,10 @@ func runC04(r *Run) {
 				}
 			}
 			if !okInc {
-				sp.Violation(check, instrPos(red), "per-attribute amount", fmt.Sprintf("each attribute after the MAC must reduce the covered length by 4 + %s(length), the amount by which Decode advances; found %v (attributes with unpadded lengths shift the covered span)", nameOf(padFn), incs))
+				sp.Violation(accFn, instrPos(red), "per-attribute amount", fmt.Sprintf("each attribute after the MAC must reduce the covered length by 4 + %s(length), the amount by which Decode advances; found %v (attributes with unpadded lengths shift the covered span)", nameOf(padFn), incs))
 			}
 			// guard: accumulation under the flag; flag set by the type test later in the iteration
-			checkAfterFlag(r, sp, check, red)
+			checkAfterFlag(r, sp, accFn, red)
 		}
 		// order: WriteLength between adjust and HMAC
 		var wlMid ssa.Instruction
